@@ -26,8 +26,10 @@ type GNode struct {
 	In   GInner
 	Arr  [2]*GNode
 	Vals []GInner
-	// a pointer to a plain integer, shared between nodes
-	Num *int64
+	// pointers to plain integers, shared between nodes and between the elements of a slice and a field: the
+	// first occurrence of a shared integer is then an element in the middle of a list of scalars
+	Counts []*int64
+	Num    *int64
 }
 
 type C20NodeSpec struct {
@@ -39,6 +41,8 @@ type C20NodeSpec struct {
 	Arr   [2]int         `json:"arr"` // -1 nil
 	Vals  []int          `json:"vals,omitempty"`
 	Num   int            `json:"num"` // index into the case's pool of shared integers, -1 nil
+	// Counts: indices into the pool of shared integers (the slice of pointers written before Num)
+	Counts []int `json:"counts,omitempty"`
 }
 
 // GRoot is a non-recursive wrapper written by value: with record types registered it is marshaled as a
@@ -86,6 +90,11 @@ func (c *C20Case) buildAll() []*GNode {
 		}
 		if s.Num >= 0 && s.Num < len(nums) {
 			n.Num = nums[s.Num]
+		}
+		for _, k := range s.Counts {
+			if k >= 0 && k < len(nums) {
+				n.Counts = append(n.Counts, nums[k])
+			}
 		}
 		if s.Next >= 0 {
 			n.Next = nodes[s.Next]
@@ -173,6 +182,32 @@ func (c *C20Case) features() (shared bool, cyclic bool) {
 // isoNums: bijection between the shared *int64 of the original and of the copy (reset per case).
 var isoNums = map[*int64]*int64{}
 
+// isoNum: one shared integer of the original against the copy's: same value, and the same identity pattern.
+func isoNum(a, b *int64, path string) error {
+	if (a == nil) != (b == nil) {
+		return fmt.Errorf("%s: nil-ness differs", path)
+	}
+	if a == nil {
+		return nil
+	}
+	if *a != *b {
+		return fmt.Errorf("%s: %d, expected %d", path, *b, *a)
+	}
+	if m, ok := isoNums[a]; ok {
+		if m != b {
+			return fmt.Errorf("%s: the original shares this integer with another place, the copy does not", path)
+		}
+		return nil
+	}
+	for oa, ob := range isoNums {
+		if ob == b && oa != a {
+			return fmt.Errorf("%s: the copy shares an integer where the original has two distinct ones", path)
+		}
+	}
+	isoNums[a] = b
+	return nil
+}
+
 func iso(a, b *GNode, fwd, rev map[*GNode]*GNode, path string) error {
 	if a == nil || b == nil {
 		if a != b {
@@ -218,25 +253,16 @@ func iso(a, b *GNode, fwd, rev map[*GNode]*GNode, path string) error {
 			return err
 		}
 	}
-	if (a.Num == nil) != (b.Num == nil) {
-		return fmt.Errorf("%s.Num: nil-ness differs", path)
+	if len(a.Counts) != len(b.Counts) {
+		return fmt.Errorf("%s.Counts: %d elements, expected %d", path, len(b.Counts), len(a.Counts))
 	}
-	if a.Num != nil {
-		if *a.Num != *b.Num {
-			return fmt.Errorf("%s.Num: %d, expected %d", path, *b.Num, *a.Num)
+	for i := range a.Counts {
+		if err := isoNum(a.Counts[i], b.Counts[i], fmt.Sprintf("%s.Counts[%d]", path, i)); err != nil {
+			return err
 		}
-		if m, ok := isoNums[a.Num]; ok {
-			if m != b.Num {
-				return fmt.Errorf("%s.Num: the original shares this integer with another node, the copy does not", path)
-			}
-		} else {
-			for oa, ob := range isoNums {
-				if ob == b.Num && oa != a.Num {
-					return fmt.Errorf("%s.Num: the copy shares an integer where the original has two distinct ones", path)
-				}
-			}
-			isoNums[a.Num] = b.Num
-		}
+	}
+	if err := isoNum(a.Num, b.Num, path+".Num"); err != nil {
+		return err
 	}
 	if len(a.Kids) != len(b.Kids) {
 		return fmt.Errorf("%s.Kids: %d elements, expected %d", path, len(b.Kids), len(a.Kids))
@@ -298,7 +324,7 @@ func init() {
 			if !byValue {
 				ctx.Stats.Exclude("S80-pointers-inside-by-value-containers")
 			}
-			for i, k := 0, rapid.IntRange(0, 2).Draw(t, "nnums"); i < k; i++ {
+			for i, k := 0, rapid.IntRange(0, 4).Draw(t, "nnums"); i < k; i++ {
 				c.Nums = append(c.Nums, rapid.SampledFrom([]int64{0, 5, 100, 101, 300, -7, 70000, 1 << 40, -(1 << 40)}).Draw(t, "numv"))
 			}
 			for i := 0; i < n; i++ {
@@ -318,6 +344,11 @@ func init() {
 				}
 				if len(c.Nums) > 0 && rapid.IntRange(0, 2).Draw(t, "hasnum") == 0 {
 					s.Num = rapid.IntRange(0, len(c.Nums)-1).Draw(t, "num")
+				}
+				if len(c.Nums) > 0 && rapid.IntRange(0, 2).Draw(t, "hascounts") == 0 {
+					for j, k := 0, rapid.IntRange(1, 4).Draw(t, "ncounts"); j < k; j++ {
+						s.Counts = append(s.Counts, rapid.IntRange(0, len(c.Nums)-1).Draw(t, "count"))
+					}
 				}
 				if rapid.IntRange(0, 2).Draw(t, "hasnext") != 0 {
 					s.Next = pickNode("next")
